@@ -24,15 +24,19 @@ def track_variants(k):
     yield [("two", True)] * k
 
 
-def make_tracks(positions, opts, first_number=1):
+def make_tracks(positions, opts, first_number=1, numbering="std"):
     tracks = []
     for i, (p, (idx, title)) in enumerate(zip(positions, opts)):
         nxt = positions[i + 1] if i + 1 < len(positions) else p + 3
+        second = min(p + 1, max(p, nxt - 1)) if nxt > p + 1 else p
         if idx == "one":
-            indices = [(1, p)]
+            indices = [(1, p)] if numbering == "std" else [(5 + i, p)]
+        elif numbering == "std":
+            indices = [(0, p), (1, second)]
         else:
-            indices = [(0, p), (1, min(p + 1, max(p, nxt - 1)) if nxt > p + 1 else p)]
-        tracks.append({"number": first_number + i, "title": (f"TRK {i + 1}" if title else None), "indices": indices})
+            indices = [(2, p), (1, second), (7, second)]      # first INDEX line is neither 00 nor 01
+        num = first_number + i if numbering == "std" else [3, 9, 10, 42][i]
+        tracks.append({"number": num, "title": (f"TRK {i + 1}" if title else None), "indices": indices})
     return tracks
 
 
@@ -56,7 +60,7 @@ def run_virtual(case):
     from smpl_extract.cdda.image import CompactDiskAudioImageAdapter
     from smpl_extract.generalized.wav import WavSampleBuilder
     positions, binlen = case["positions"], case["binlen"]
-    tracks = make_tracks(positions, [tuple(o) for o in case["opts"]])
+    tracks = make_tracks(positions, [tuple(o) for o in case["opts"]], numbering=case.get("numbering", "std"))
     lines = [l + "\n" for l in Q.cue_lines("x.bin", tracks)]
 
     def go():
@@ -163,6 +167,13 @@ class Check(CheckBase):
                     for r in RESIDUES:
                         cases.append({"kind": "virtual", "positions": list(positions), "opts": [list(o) for o in opts],
                                       "binlen": Q.SECTOR * positions[-1] + r})
+        # unusual but legal numbering: track numbers 3, 9, 10, 42; first INDEX line numbered 02 or 05..08
+        for k in (1, 2, 3, 4):
+            for positions in list(itertools.combinations(P, k))[::2]:
+                for opts in ([("one", False)] * k, [("two", True)] * k):
+                    for r in (0, 3, 2353):
+                        cases.append({"kind": "virtual", "positions": list(positions), "opts": [list(o) for o in opts],
+                                      "binlen": Q.SECTOR * positions[-1] + r, "numbering": "odd"})
         # minute carry (virtual 10.6 MB bin)
         for positions in ([4499, 4500], [4500, 4501], [0, 4500], [75, 4499, 4501]):
             for r in (0, 3, 2352):
